@@ -5,6 +5,7 @@ import SFV.Model.Bosonic
 import SFV.Model.FockPrep
 import SFV.Model.GaussBackend
 import SFV.Model.FockLoss
+import SFV.Model.BosonicState
 /-! Driver for K3 (Gaussian simulator model over `Rat`) and K4 (Fock tensor index algebra over
 Gaussian integers).  Ops: `fock.apply`, `gauss.run`. -/
 namespace SFV.Drv.Sim
@@ -318,8 +319,19 @@ def fockLossSq (j : Json) : R Json := do
   pure <| Json.mkObj [("count", jnat (lossKrausList (fun _ _ => (0 : Rat)) D).length),
     ("sq", jarr (rng.map fun k => jarr (rng.map fun n => jrat (lossSq T k n))))]
 
+/-- `BosonicBackend.prepare_cat(…, 'complex', …)`: weights, means, covariances of the four components -/
+def bosCat (j : Json) : R Json := do
+  let st := SFV.BosSt.catComplex (← getRat j "hb2") (← getRat j "s") (← getRat j "ar") (← getRat j "ai")
+    ⟨(← getRat j "cre"), (← getRat j "cim")⟩
+  let ks := List.range st.N
+  pure <| Json.mkObj [
+    ("w", jarr (ks.map fun k => jCx (st.comp k).w)),
+    ("mu", jarr (ks.map fun k => jarr ((List.range 2).map fun i => jCx ((st.comp k).mu i)))),
+    ("cov", jarr (ks.map fun k => jarr ((List.range 2).map fun i => jarr ((List.range 2).map fun l => jCx ((st.comp k).cov i l)))))]
+
 def handler (op : String) (j : Json) : Option (R Json) :=
   match op with
+  | "bos.cat" => some (bosCat j)
   | "fock.lossSq" => some (fockLossSq j)
   | "fock.apply" => some (fockApply j)
   | "gauss.run" => some (gaussRun j)
